@@ -1,5 +1,6 @@
 import Mp4ff.Model.Cenc
 import Mp4ff.Lemmas.C14Conv
+import Mp4ff.Lemmas.CencNaluFacts
 /-! helper lemmas for C07: `appendProtectRange`, `maskOf`, `protectRanges` (cenc), `cencProt`, `incrementIV` -/
 namespace Mp4ff.Cenc
 open Mp4ff.Nalu
@@ -91,7 +92,7 @@ theorem pr_go (c : Codec) (s : Bytes) : ∀ (rest : List Bytes) (pre : Bytes) (f
     obtain ⟨f, rfl⟩ : ∃ f, fuel = f + 1 := ⟨fuel - 1, by omega⟩
     have hl : s.length = pre.length := by simp [hs, lenPrefixed]
     rw [protectRanges.go]
-    simp only [(end_facts s pre hs hlt).1, if_false]
+    simp only [(end_facts_u32 s pre hs hlt).1, if_false]
     have hm : (pre.length + U32 - cs) % U32 = pre.length - cs := by
       rw [U32_eq] at hlt ⊢; omega
     rw [hm]
@@ -113,7 +114,7 @@ theorem pr_go (c : Codec) (s : Bytes) : ∀ (rest : List Bytes) (pre : Bytes) (f
   | cons n rest ih =>
     intro pre fuel cs acc hs hlt hne hf hcs hacc
     obtain ⟨f, rfl⟩ : ∃ f, fuel = f + 1 := ⟨fuel - 1, by omega⟩
-    obtain ⟨hg, _, hbe, hp1, hp2, hsl, hb, hs', hl', hle⟩ := step_facts s pre n rest hs hlt (hne n (by simp))
+    obtain ⟨hg, _, hbe, hp1, hp2, hsl, hb, hs', hl', hle⟩ := step_facts_u32 s pre n rest hs hlt (hne n (by simp))
     rw [protectRanges.go]
     simp only [hg, if_true, hbe, hp1, hp2, hb]
     have hle' : ¬ (pre.length + 4 + n.length > s.length) := by omega
